@@ -39,7 +39,7 @@ def assign_callbacks(rng, decls, regs, path=''):
                 c += 'v'
             elif r < 0.55:
                 regs.append(p)
-            if d.typ in ('int', 'float', 'str') and not d.is_list and rng.random() < 0.3:
+            if d.typ in ('int', 'float', 'str') and (not d.is_list or d.typ != 'str') and rng.random() < 0.3:
                 c += 'w'
             d.cbs = c
         elif d.typ == 'func':
@@ -185,7 +185,12 @@ def script(spec):
         val = '5' if d.typ == 'int' else '0x1p2'
         L += ['v2mode 0', 'set%s 0 %s %s' % (d.typ, hx(d.name), val), 'get 0 %s %s 0' % (d.typ, hx(d.name)),
               'v2mode 2', 'set%s 0 %s %s' % (d.typ, hx(d.name), val), 'get 0 %s %s 0' % (d.typ, hx(d.name)),
-              'v2mode 1', 'set%s 0 %s %s' % (d.typ, hx(d.name), '9' if d.typ == 'int' else '0x1p5'), 'get 0 %s %s 0' % (d.typ, hx(d.name)), 'v2mode 0', 'free 0']
+              'v2mode 1', 'set%s 0 %s %s' % (d.typ, hx(d.name), '9' if d.typ == 'int' else '0x1p5'), 'get 0 %s %s 0' % (d.typ, hx(d.name))]
+        if d.is_list:
+            # a vetoed append (index = current size) must not grow the list
+            n = max(1, len(d.default or []))
+            L += ['get 0 size %s 0' % hx(d.name), 'v2mode 1', 'set%s 0 %s %s %d' % (d.typ, hx(d.name), '9' if d.typ == 'int' else '0x1p5', n), 'get 0 size %s 0' % hx(d.name)]
+        L += ['v2mode 0', 'free 0']
     return '\n'.join(L)
 
 
@@ -377,10 +382,10 @@ def judge(spec, events, death):
             elif rets[1]['rc'] == 0 or sv[1] != 'accepted' or rets[2]['rc'] == 0 or sv[2] != 'accepted':
                 v.bad('validcb2:veto:str', 'vetoing validator on a string: rc=%s/%s values %r/%r (must stay %r)' % (rets[1]['rc'], rets[2]['rc'], sv[1], sv[2], 'accepted'))
             continue
-        gv = [float.fromhex(x['v']) if d.typ == 'float' else x['v'] for x in gets]
+        gv = [float.fromhex(x['v']) if d.typ == 'float' else x['v'] for x in gets[:3]]
         plain, rew = (5, 4242) if d.typ == 'int' else (4.0, 42.5)
         v.notes['preset_validator_checks'] = v.notes.get('preset_validator_checks', 0) + 1
-        if len(cbs) != 3:
+        if len(cbs) != (4 if d.is_list else 3):
             v.bad('validcb2:not-called', 'pre-set validator of %s called %d times for 3 setter calls' % (d.name, len(cbs)))
         elif rets[0]['rc'] != 0 or gv[0] != plain:
             v.bad('validcb2:accept', 'accepting validator: setter rc=%s value=%s' % (rets[0]['rc'], gv[0]))
@@ -388,6 +393,8 @@ def judge(spec, events, death):
             v.bad('validcb2:rewrite', 'rewriting validator: stored %s, expected %s' % (gv[1], rew))
         elif rets[2]['rc'] == 0 or gv[2] != rew:
             v.bad('validcb2:veto', 'vetoing validator: rc=%s value=%s (should stay %s)' % (rets[2]['rc'], gv[2], rew))
+        elif d.is_list and len(gets) >= 5 and len(rets) >= 4 and (rets[3]['rc'] == 0 or gets[4]['v'] != gets[3]['v']):
+            v.bad('validcb2:veto:append', 'vetoed append to list %s: rc=%s, size %s -> %s' % (d.name, rets[3]['rc'], gets[3]['v'], gets[4]['v']))
     return v
 
 
